@@ -9,6 +9,7 @@ from ..oracles import validity
 from ..rust import build
 from ..rust.hx import Hx
 
+READY = True
 LEVEL = 'exploration'
 TECHNIQUE = 'runtime monitoring of the real checker in step mode: every term it marks Proved is evaluated in finite models (carrier 1..3) under admissible instantiations; streams directed by the checker\'s own state with a hostile bias'
 LEVEL_TEXT = ('Instruction streams are generated step by step from the state the real checker reports (harness STEP/DUMP over the '
